@@ -1041,7 +1041,9 @@ fn main() {
     let mut cw = CaseWriter::new(&a.out, header, "check_case", a.shards);
     if let Some(p) = &a.replay {
         let v: serde_json::Value = serde_json::from_str(&std::fs::read_to_string(p).unwrap()).unwrap();
-        let mc: MCase = serde_json::from_value(v["case"].clone()).unwrap();
+        // a corpus / monitor-failure file ({"case": ..}) or a replay file written by ./check
+        let cj = if !v["case"].is_null() { v["case"].clone() } else { v["violation"]["detail"]["case"].clone() };
+        let mc: MCase = serde_json::from_value(cj).expect("no replayable case in this file");
         let (c, _, fails) = run_case(&mc, &mut stats, None);
         cw.push(c);
         for f in fails { stats.monitor_fail(f); }
